@@ -309,6 +309,9 @@ class Check:
         for k in self.known_hits.values():
             lines.append(f"KNOWN-FINDING: property={self.prop} {k['what']}")
         os.makedirs(REPLAYS, exist_ok=True)
+        for f in os.listdir(REPLAYS):
+            if f.startswith(self.prop + "-"):
+                os.remove(os.path.join(REPLAYS, f))
         vio_lines = []
         seen = set()
         for v in unknown:
